@@ -274,6 +274,19 @@ func suiteConfig(r *rng, n int) {
 			class = "struct"
 		}
 		probes, rt := "n/a", "n/a"
+		if verr != nil {
+			// a configuration that is not accepted cannot be saved either: Write refuses it and what is stored stays
+			// what it was
+			before, berr := config.Read()
+			cp := *c
+			if werr := config.Write(&cp); werr == nil {
+				rt = "saved-although-rejected"
+			} else if after, aerr := config.Read(); (berr == nil) != (aerr == nil) || (berr == nil && !reflect.DeepEqual(before, after)) {
+				rt = "stored-changed-by-refused-write"
+			} else {
+				rt = "write-refused"
+			}
+		}
 		if verr == nil {
 			// apply like main.update (servers are not started)
 			compress.Reset(c.Compresses)
